@@ -298,7 +298,7 @@ func TestC09(t *testing.T) {
 // C16
 
 const c16Rule = "rapid draws of histories (as C09, map-free types so that two runs produce identical payload bytes; plus FileWriter-level histories WriteHeader, WriteBlock x n) and, for each history, " +
-	"EVERY write index k = 0..W-1 of the fault-free run as a fault point: the k-th Write accepts a drawn j in [0,len] bytes and returns a sentinel error; " +
+	"EVERY write index k = 0..W-1 of the fault-free run as a fault point: the k-th Write accepts a drawn j in [0,len] bytes and returns a sentinel error (alternately a sticky failure, after which every write fails, and a transient one, after which writes succeed again); " +
 	"oracle: the call that issued write k returns an error with errors.Is(err, sentinel), no earlier call failed, no panic, and the bytes accepted are a prefix of the fault-free output " +
 	"with its sync markers (positions known from the reference parser) replaced by the faulty run's marker; " +
 	"evaluations = fault points; non-trivial = k > 0 with a partial acceptance in a history with >= 2 blocks; distinct by (history hash, k)"
@@ -317,6 +317,10 @@ type faultWriter struct {
 	failAt int // -1 never
 	permil int
 	fired  bool
+	// sticky: every write after the failing one fails too (a broken pipe);
+	// otherwise only the k-th write fails (a transient error) and a caller that
+	// drops the error would carry on writing.
+	sticky bool
 	lens   []int
 }
 
@@ -324,7 +328,7 @@ func (f *faultWriter) Write(p []byte) (int, error) {
 	k := f.writes
 	f.writes++
 	f.lens = append(f.lens, len(p))
-	if f.fired {
+	if f.fired && f.sticky {
 		return 0, errWriteSentinel
 	}
 	if f.failAt >= 0 && k == f.failAt {
@@ -421,7 +425,7 @@ func runC16(c histCase, col *stats.Collector) (bool, []string, error) {
 		if len(c.J) > 0 {
 			permil = c.J[k%len(c.J)]
 		}
-		fw := &faultWriter{failAt: k, permil: permil}
+		fw := &faultWriter{failAt: k, permil: permil, sticky: (k+len(c.Ops)+len(c.Payloads))%2 == 0}
 		calls, writesAfter, perr := runHistory(c, fw, fw)
 		fail := func(format string, args ...interface{}) (bool, []string, error) {
 			return true, labels, fmt.Errorf("fault at write %d of %d (accepting %d permille): %s", k, W, permil, fmt.Sprintf(format, args...))
